@@ -3,7 +3,8 @@ CONSTANTS
  Keys = {"a", "b", "c"}
  MaxItems = 3
  MaxTicket = 40
- MaxStale = 0
+ MaxStale = 4
+ MaxExh = 2
  AllowRemove = TRUE
  Dev = {}
  Depth = 40
